@@ -278,6 +278,7 @@ func (rd *HandlingDataManager) initializeStreams() (err error) {
 		return fmt.Errorf("failed to initialize HAProxy endpoints: %v", err)
 	}
 	rd.setStream(stream)
+	verifhook.Yield("reload.published")
 
 	// Unmanaging HAProxy endpoints should occur after all possible transactions have reached Engine
 	if previousHaProxyReq != nil &&
